@@ -462,7 +462,7 @@ fn classify(n: &WalkNode, scope: Scope, msg: &str, stealing: bool) -> Option<Str
         x if x.contains("Join") => (if mark_join { "[mark]" } else { "" }).to_string(),
         "CoalescePartitionsExec" => (if d.contains("fetch=") { "[fetch]" } else { "" }).to_string(),
         "AggregateExec" => {
-            (if d.contains("lim=[") { "[lim]" } else { "" }).to_string()
+            (if d.contains("lim=[") { "[lim]" } else if d.contains("(NULL as ") { "[grouping-sets]" } else { "" }).to_string()
         }
         _ => String::new(),
     };
